@@ -773,6 +773,8 @@ func (c *specCtx) call(x *ast.CallExpr) specVal {
 			return specVal{term: fmt.Sprintf("(s_len %s)", v.term), typ: tInt}
 		case *types.Basic:
 			return specVal{term: fmt.Sprintf("(slen %s)", v.term), typ: tInt}
+		case *types.Map:
+			return specVal{term: vc.mapCard(c.st, v.typ.Underlying().(*types.Map), v.term), typ: tInt}
 		}
 		fail("len of %s", v.typ)
 	case "cap":
@@ -929,6 +931,14 @@ func (c *specCtx) call(x *ast.CallExpr) specVal {
 		i, _ := strconv.Atoi(args[2].(*ast.BasicLit).Value)
 		sv := vc.eventCounter(s)
 		av, typ := vc.eventArg(s, i)
+		return specVal{term: fmt.Sprintf("(select %s (+ %s %s))", vc.get(c.st, av), vc.get(c.old, sv), k.term), typ: typ}
+	case "callres":
+		// callres("name", k): first result of the k-th call (0-based, counted from entry)
+		lit := args[0].(*ast.BasicLit)
+		s, _ := strconv.Unquote(lit.Value)
+		k := c.eval(args[1])
+		sv := vc.eventCounter(s)
+		av, typ := vc.eventArg(s, resultSlot)
 		return specVal{term: fmt.Sprintf("(select %s (+ %s %s))", vc.get(c.st, av), vc.get(c.old, sv), k.term), typ: typ}
 	case "has":
 		m := c.eval(args[0])
